@@ -223,6 +223,65 @@ def rule_envelope(ctx):
     return obs
 
 
+def _irrefutable(p):
+    if not isinstance(p, tuple) or not p:
+        return False
+    if p[0] in ('wild', 'bind'):
+        return True
+    if p[0] == 'slice':
+        return p[2] and len(p[1]) == 0
+    if p[0] == 'tuple':
+        return all(_irrefutable(x) for x in p[1])
+    return False
+
+
+def _covers_some(pats):
+    """do these patterns (arms before the fallback) match every `Some(_)`?"""
+    subs = [p[2][0] for p in pats if isinstance(p, tuple) and p and p[0] == 'ctor' and p[1].endswith('Some') and len(p[2]) == 1]
+    if any(_irrefutable(x) for x in subs):
+        return True
+    slices = [x for x in subs if x[0] == 'slice']
+    # [] together with [_, ..]
+    has_empty = any(len(x[1]) == 0 and not x[2] for x in slices)
+    has_nonempty = any(len(x[1]) == 1 and x[2] and all(_irrefutable(y) for y in x[1]) for x in slices)
+    return has_empty and has_nonempty
+
+
+def _placeholder_only_when_absent(t):
+    """is the "<query>" constant selected exactly when Error.path is None?  ('ok' | 'bad' | 'undecided', reason)"""
+    has = lambda x: '<query>' in TM.consts_in(x)
+    while t[0] in ('xf', 'ident') and has(t):
+        t = t[2] if t[0] == 'xf' else t[1]
+    if t[0] == 'orelse' and has(t[2]) and not has(t[1]):
+        x = t[1]
+        narrowing = [s_ for s_ in P.subterms(x) if isinstance(s_, tuple) and s_ and (s_[0] in ('none', 'absent') or (s_[0] == 'op' and s_[1] in ('filter', 'then', 'then_some')))]
+        if narrowing:
+            return 'bad', 'the mapped path can itself be None (%s) before the fallback applies' % P.show(narrowing[0], 0, 2)[:60]
+        return 'ok', 'fallback of the mapped Option'
+    if t[0] == 'match':
+        arms = t[2]
+        for i, (pat, body) in enumerate(arms):
+            if not has(body):
+                continue
+            if pat[0] == 'ctor' and pat[1].endswith('None'):
+                return 'ok', 'the None arm'
+            if pat[0] in ('wild', 'bind'):
+                if _covers_some([p for p, b in arms[:i]]):
+                    return 'ok', 'catch-all after arms that cover every Some(_)'
+                return 'bad', 'the catch-all arm also takes `Some(..)` values the earlier arms (%s) do not match' % ', '.join(P.show_pat(p) for p, b in arms[:i])[:80]
+            return 'undecided', 'placeholder arm pattern %s' % P.show_pat(pat)[:60]
+    if t[0] == 'if':
+        _, cond, pol = P.canon_if(t[1], True)
+        if cond[0] == 'op' and cond[1] in ('is_some', 'is_none') and len(cond[2]) == 1:
+            some_branch = t[2] if (cond[1] == 'is_some') == pol else t[3]
+            none_branch = t[3] if (cond[1] == 'is_some') == pol else t[2]
+            if has(none_branch) and not has(some_branch):
+                return 'ok', 'the branch where the path is None'
+            return 'bad', 'the placeholder is in the branch where the path is present'
+        return 'bad' if any(s_[0] == 'op' and s_[1] in ('is_empty', 'len') for s_ in P.subterms(t[1]) if isinstance(s_, tuple) and s_) else 'undecided', 'condition %s' % P.show(t[1], 0, 3)[:80]
+    return 'undecided', P.show(t, 0, 2)[:80]
+
+
 @rule('DISPLAY-FORMAT', 'DISPLAY-TOTAL')
 def rule_display(ctx):
     obs = []
@@ -293,7 +352,14 @@ def rule_display(ctx):
     consts = TM.consts_in(ts[0])
     fmt_strs = {s[1] for s in P.subterms(ts[0]) if s[0] == 'fmt'}
     if '<query>' in consts:
-        obs.append(ok('DISPLAY-FORMAT', 'Error::fmt/absent-path', 'absent path prints as <query>', args[0].get('sp', '')))
+        verdict, why = _placeholder_only_when_absent(ts[0])
+        if verdict == 'ok':
+            obs.append(ok('DISPLAY-FORMAT', 'Error::fmt/absent-path', 'absent path prints as <query> (%s)' % why, args[0].get('sp', '')))
+        elif verdict == 'bad':
+            obs.append(bad('DISPLAY-FORMAT', 'Error::fmt/absent-path', 'the "<query>" placeholder is also printed for a path that is present: ' + why, args[0].get('sp', ''),
+                           'a present (e.g. empty) path is indistinguishable from an absent one'))
+        else:
+            obs.append(undecided('DISPLAY-FORMAT', 'Error::fmt/absent-path', '"<query>" fallback present, its condition is not recognised: ' + why, args[0].get('sp', '')))
     else:
         obs.append(bad('DISPLAY-FORMAT', 'Error::fmt/absent-path', 'no "<query>" fallback for an absent path (constants: %s)' % sorted(map(str, consts))[:5],
                        args[0].get('sp', ''), 'absent path prints differently'))
@@ -665,7 +731,12 @@ def rule_derive_options(ctx):
                     idx_attr = [i for i, x in enumerate(flat) if 'extract_attr' in x and 'CARGO_MANIFEST_DIR' not in x]
                     if idx_env and idx_attr and min(idx_env) < min(idx_attr):
                         order_ok = True
-                if keys == {key} and order_ok:
+                # .. on every path: no alternative of the value may bypass the manifest directory
+                bypass = [lf for cs_, lf in P.leaves(tt) if lf[0] not in ('diverge', 'err', 'rec', 'early') and 'CARGO_MANIFEST_DIR' not in repr(lf)]
+                if keys == {key} and order_ok and bypass:
+                    obs.append(bad('ATTR-PATHS', 'derive/' + name, '%s has an alternative that is not joined to CARGO_MANIFEST_DIR: %s' % (name, P.show(bypass[0], 0, 3)[:100]), pf.loc,
+                                   'the path is resolved against the directory rustc happens to run in, not the consumer crate\'s manifest directory'))
+                elif keys == {key} and order_ok:
                     obs.append(ok('ATTR-PATHS', 'derive/' + name, '%s = CARGO_MANIFEST_DIR joined with the `%s` attribute' % (name, key), pf.loc))
                 else:
                     obs.append(bad('ATTR-PATHS', 'derive/' + name, '%s is built from keys %s (manifest dir first: %s)' % (name, sorted(keys), order_ok), pf.loc,
